@@ -258,6 +258,9 @@ let job (x : sx) : ostr =
                      match select_nth l mn with [] -> Err SchedulingError | l' -> Ok (List.map unwrap1 l'))
                | m -> failwith ("find mode " ^ m)) in
       res_str (list_str cursor_str) r
+  | L [A "quirks"] ->
+      let b x = if x then "1" else "0" in
+      b impl_quirks.q_stride0 ^ b impl_quirks.q_callargs ^ b impl_quirks.q_wcfg
   | L [A "wf"; pat] ->
       (match pattern_of pat with PatS l -> bool_str (wf_pats l) | PatE _ -> "true")
   (* (glue find|find_loop|find_alloc_or_arg (args) (s codes) many) *)
